@@ -65,7 +65,11 @@ def case(draw):
     pk += sorted({p.split('/')[0] for p in pk})
     return {'repo': r, 'opts': o, 'edits': edits,
             'forced_subdir': draw(st.sampled_from(pk))
-            if pk and draw(st.booleans()) else None}
+            if pk and draw(st.booleans()) else None,
+            # harness-owned directory listing order (neighbouring names
+            # such as foo / foo-bin are met in either order)
+            'scandir': draw(st.sampled_from([None, 'sorted', 'reversed',
+                                             'a', 'b']))}
 
 
 def strat(tier):
@@ -248,6 +252,15 @@ def cli_args(o):
 
 
 def run_case(desc):
+    import contextlib
+    import shim
+    order = shim.ScandirOrder(desc['scandir']) if desc.get('scandir') \
+        else contextlib.nullcontext()
+    with order:
+        return run_case_ordered(desc)
+
+
+def run_case_ordered(desc):
     root = harness.fresh_dir('c19')
     try:
         repogen.materialize(desc['repo'], root)
